@@ -621,3 +621,149 @@ func fromInitOnly(c, initFn *ssa.Function, callers map[*ssa.Function][]*ssa.Func
 	}
 	return up(c)
 }
+
+// structuralC06: the code of the custom modules that runs inside block processing uses no source of
+// nondeterminism: no wall clock, no process-global or unseeded random source, no concurrency, and every iteration
+// over a Go map sits in a function under a C06 contract that pins its result independently of the enumeration order.
+func (w *Workspace) structuralC06() *FuncResult {
+	res := &FuncResult{Key: "custom modules: sources of nondeterminism"}
+	mods := append(append([]string{}, customModules...), "jklmint")
+	forbidden := func(full string) string {
+		switch {
+		case full == "time.Now" || full == "time.Since" || full == "time.Until" || full == "time.After" || full == "time.Sleep" || full == "time.Tick":
+			return "wall clock"
+		case strings.HasPrefix(full, "math/rand.") && full != "math/rand.New" && full != "math/rand.NewSource":
+			return "process-global math/rand source"
+		case strings.HasPrefix(full, "crypto/rand."):
+			return "crypto/rand"
+		case strings.HasPrefix(full, "github.com/tendermint/tendermint/libs/rand.") && full != "github.com/tendermint/tendermint/libs/rand.NewRand" && full != "github.com/tendermint/tendermint/libs/rand.Seed":
+			return "process-global tendermint rand source"
+		case full == "os.Getenv" || full == "os.LookupEnv" || full == "os.Hostname" || full == "os.Getpid" || strings.HasPrefix(full, "runtime.NumGoroutine"):
+			return "process environment"
+		}
+		return ""
+	}
+	checked := 0
+	for _, mod := range mods {
+		for _, sub := range []string{"/keeper", "/types", ""} {
+			sp := w.ssaPkgs[modPath+"/x/"+mod+sub]
+			if sp == nil {
+				if sub != "/types" || mod != "jklmint" {
+					res.Obls = append(res.Obls, structural("x/"+mod+sub, "package_loaded", []string{"C06"}, false, "package is not loaded"))
+				}
+				continue
+			}
+			var fns []*ssa.Function
+			seen := map[*ssa.Function]bool{}
+			var add func(fn *ssa.Function)
+			add = func(fn *ssa.Function) {
+				if fn == nil || seen[fn] || len(fn.Blocks) == 0 {
+					return
+				}
+				seen[fn] = true
+				fns = append(fns, fn)
+				for _, a := range fn.AnonFuncs {
+					add(a)
+				}
+			}
+			for _, m := range sp.Members {
+				switch x := m.(type) {
+				case *ssa.Function:
+					add(x)
+				case *ssa.Type:
+					for _, t := range []types.Type{x.Type(), types.NewPointer(x.Type())} {
+						ms := w.prog.MethodSets.MethodSet(t)
+						for i := 0; i < ms.Len(); i++ {
+							if fn := w.prog.MethodValue(ms.At(i)); fn != nil && fn.Pkg == sp && fn.Synthetic == "" {
+								add(fn)
+							}
+						}
+					}
+				}
+			}
+			sort.Slice(fns, func(i, j int) bool { return fns[i].String() < fns[j].String() })
+			for _, fn := range fns {
+				top := fn
+				for top.Parent() != nil {
+					top = top.Parent()
+				}
+				file := w.prog.Fset.Position(top.Pos()).Filename
+				base := file[strings.LastIndex(file, "/")+1:]
+				// not part of block processing: tests, queries, CLI, simulation, generated code, genesis/param plumbing
+				if strings.HasSuffix(base, "_test.go") || strings.HasPrefix(base, "grpc_query") || strings.HasSuffix(base, ".pb.go") || strings.HasSuffix(base, ".pb.gw.go") ||
+					strings.Contains(file, "/simulation/") || strings.Contains(file, "/client/") || base == "module_simulation.go" || base == "querier.go" {
+					continue
+				}
+				if top.Name() == "init" || strings.HasPrefix(top.Name(), "init#") {
+					continue // package initialisers run at process start, not during block processing
+				}
+				checked++
+				name := "x/" + mod + sub + "." + relName(top)
+				var bad []string
+				mapRange := false
+				for _, b := range fn.Blocks {
+					for _, ins := range b.Instrs {
+						switch x := ins.(type) {
+						case *ssa.Go:
+							bad = append(bad, "go statement")
+						case *ssa.Select:
+							bad = append(bad, "select")
+						case *ssa.Send, *ssa.MakeChan:
+							bad = append(bad, "channel operation")
+						case *ssa.Range:
+							if _, isMap := x.X.Type().Underlying().(*types.Map); isMap {
+								mapRange = true
+							}
+						case ssa.CallInstruction:
+							if callee := x.Common().StaticCallee(); callee != nil {
+								if strings.HasSuffix(callee.String(), ".init") {
+									continue // package initialisers of imports
+								}
+								if why := forbidden(callee.String()); why != "" {
+									if why == "wall clock" && onlyFeedsTelemetry(x) {
+										res.Notes = append(res.Notes, name+" reads the wall clock only to hand it to the telemetry package (no effect on state or results)")
+										continue
+									}
+									bad = append(bad, why+" ("+callee.String()+")")
+								}
+							}
+						}
+					}
+				}
+				if len(bad) > 0 {
+					res.Obls = append(res.Obls, structural(name, "no_nondeterministic_primitive", []string{"C06"}, false,
+						fmt.Sprintf("%s uses %s: two nodes executing the same block may compute different results", name, strings.Join(bad, ", "))))
+				}
+				if mapRange {
+					ct := w.contracts[modPath+"/x/"+mod+sub+"::"+relName(top)]
+					ok := ct != nil && !ct.Trusted && contains(ct.Props, "C06")
+					res.Obls = append(res.Obls, structural(name, "map_iteration_under_an_order_independence_contract", []string{"C06"}, ok,
+						fmt.Sprintf("%s ranges over a Go map; it must be under a C06 contract that determines its result independently of the iteration order", name)))
+				}
+			}
+		}
+	}
+	res.Obls = append(res.Obls, structural("custom modules", "functions_scanned", []string{"C06"}, checked > 100, fmt.Sprintf("%d functions scanned", checked)))
+	return res
+}
+
+// onlyFeedsTelemetry: the value of the call is used only as an argument of calls into the SDK telemetry package.
+func onlyFeedsTelemetry(ci ssa.CallInstruction) bool {
+	v := ci.Value()
+	if v == nil || v.Referrers() == nil {
+		return false
+	}
+	for _, r := range *v.Referrers() {
+		switch u := r.(type) {
+		case *ssa.DebugRef:
+		case ssa.CallInstruction:
+			callee := u.Common().StaticCallee()
+			if callee == nil || callee.Pkg == nil || callee.Pkg.Pkg.Path() != "github.com/cosmos/cosmos-sdk/telemetry" {
+				return false
+			}
+		default:
+			return false
+		}
+	}
+	return true
+}
